@@ -7,7 +7,10 @@ caught = sys.argv[3:]
 dst = os.path.join('/verif/seeded', sid)
 os.makedirs(dst, exist_ok=True)
 for f in glob.glob(os.path.join(out, '*')):
-    shutil.copy(f, dst)
+    if os.path.isdir(f):
+        shutil.copytree(f, os.path.join(dst, os.path.basename(f)), dirs_exist_ok=True)
+    else:
+        shutil.copy(f, dst)
 mp = os.path.join(dst, 'meta.json')
 m = json.load(open(mp))
 m['confirmed'] = {
